@@ -202,6 +202,28 @@ EXTRA = extras()
 EXTRA.update(BOUNDARY)
 
 
+def structure_specs():
+    """long declarations (24 components: field names that are prefixes of each other, long runs of fixed fields split by
+    variable ones) and holders whose class options differ from those of the class they hold"""
+    specs = []
+    for base in (['i1', 'i2', 'i3', 'i2l', 'd2', 'i4'], ['i1', 'i1', 'i2', 'dn', 'i1', 'i2l'], ['i2', 'b35', 'i1', 'i1s', 'm0', 'i3'], ['i1', 'p_sh1', 'i2', 'i1', 'sn', 'i2d']):
+        for w in 'ab':
+            specs.append({'names': base * 4, 'wrapper': w})
+        specs.append({'names': base * 4, 'wrapper': 'a', 'opts': {'vectorize': False}})
+        specs.append({'names': base * 4, 'wrapper': 'a', 'opts': {'endianness': 'little', 'annotate': False}})
+    # the NESTED class alone runs the field-by-field loop (both directions / one of them) inside holders with generated code
+    for c in ('p_at3', 'p_atn', 'p_atl', 'p_al6i', 'p_al4i', 'p_aln', 'p_em2i', 'p_ref', 'p_d0', 'p_al2', 'p_shm1', 'sn', 'r1', 'o1', 'dn'):
+        for w in 'bcd':
+            for o in ({'generate_for_pack': False, 'generate_for_unpack': False}, {'generate_for_pack': False}, {'generate_for_unpack': False}):
+                specs.append({'names': ['i1', c], 'wrapper': w, 'opts': o})
+    for c in ('i2', 'x3defu', 'dn', 'sns', 'r1', 'b35', 'm0', 'o1', 'p_al2'):
+        for w in 'bc':
+            specs.append({'names': [c, 'i2'], 'wrapper': w, 'wopts': {'endianness': 'little'}})
+            specs.append({'names': [c, 'i2'], 'wrapper': w, 'wopts': {'align': 4}})
+            specs.append({'names': [c, 'i2'], 'wrapper': w, 'opts': {'endianness': 'little'}, 'wopts': {'generate_for_pack': False, 'generate_for_unpack': False}})
+    return specs
+
+
 def boundary_specs(sizes=(255, 256, 257), wrappers='ab', cut=True):
     """declarations over the boundary components with the inputs that cross the boundaries: exact encodings for each size,
     the same with one byte missing, and (one-byte length fields) 255"""
@@ -230,7 +252,8 @@ REDUCED = ['i1', 'i2l', 'i3', 'dn', 'dx', 'm0', 'mab', 'rx', 'rxlb', 'b35', 'r1'
            'p_at3', 'p_atn', 'p_shm1', 'p_shm2d', 'p_al2', 'p_al3', 'p_al4i', 'p_em4', 'p_d0', 'eos']
 
 
-def make_decl(names, opts=None, wrapper='a', name='K'):
+def make_decl(names, opts=None, wrapper='a', name='K', wopts=None):
+    """opts are the class options of the packet under test, wopts those of the holder around it (wrappers b, c)"""
     fields = []
     for i, cn in enumerate(names):
         fields.extend((COMPONENTS.get(cn) or EXTRA[cn])[0](i))
@@ -238,9 +261,9 @@ def make_decl(names, opts=None, wrapper='a', name='K'):
     if wrapper == 'a':
         return K
     if wrapper == 'b':
-        return PKT('W', [('pre', I(1)), ('body', R(K))])
+        return PKT('W', [('pre', I(1)), ('body', R(K))], **(wopts or {}))
     if wrapper == 'c':
-        return PKT('W', [('c', I(1)), ('items', S(R(K), F('c')))])
+        return PKT('W', [('c', I(1)), ('items', S(R(K), F('c')))], **(wopts or {}))
     if wrapper == 'd':
         # three levels: the packet inside an optional reference inside a packet that is repeated inside a packet
         M = PKT('M', [('t', I(1)), ('inner', O(R(K), F('t'))), ('tail', I(1))])
